@@ -26,6 +26,20 @@ def lean(run, pid, tier, lock, collect):
         run.error('lean: no theorem found in %s' % LEAN_FILE)
     for t in thms:
         run.add_obligations([Obligation('lean/%s' % t, 'engine/lean/VerifLemmas.lean', 'discharged' if ok else 'open', 'lean', secs / max(1, len(thms)), detail, 'lemma')])
-    run.extra['lean'] = {'file': 'engine/lean/VerifLemmas.lean', 'theorems': len(thms), 'seconds': round(secs, 2), 'banned': banned}
+    # every lemma-instance builtin of the VC generator names its Lean counterpart(s) in its docstring ("Lean: a, b + c"): those names must
+    # exist in the library (keeps the SMT side and the Lean side from drifting apart silently)
+    core_src = open(os.path.join(VERIF, 'engine', 'pyvc', 'core.py')).read()
+    tset = set(thms)
+    mapped = 0
+    for m_ in re.finditer(r'def (_sb_lemma_\w+)\(eng, st, node\):\s+"""(.*?)"""', core_src, re.S):
+        fn, doc = m_.group(1), m_.group(2)
+        lm = re.search(r'\((?:Lean|LEMMA \(Lean|DEFINITION \(Lean)?[^)]*?Lean:\s*([^)]*)\)', doc) or re.search(r'Lean:\s*([^)\n]*)', doc)
+        names = [t for t in re.findall(r"[A-Za-z_][A-Za-z0-9_']*", lm.group(1) if lm else '') if '_' in t]
+        missing = [t for t in names if t not in tset]
+        ok_map = bool(names) and not missing or ('congruence' in doc and not names)
+        mapped += 1
+        run.add_obligations([Obligation('lemma-map/%s' % fn[4:], 'engine/pyvc/core.py', 'discharged' if ok_map else 'open', 'syntactic', 0.0,
+                                        '' if ok_map else 'docstring names no existing Lean theorem: %s' % (missing or 'none named'), 'lemma')])
+    run.extra['lean'] = {'file': 'engine/lean/VerifLemmas.lean', 'theorems': len(thms), 'seconds': round(secs, 2), 'banned': banned, 'lemma_builtins_mapped': mapped}
     if not ok:
         run.error('lean: the lemma library does not check: %s' % detail[:300])
